@@ -49,7 +49,7 @@ ENCODED = [
 BOUNDS = (
     "collector: every op script of length <= %d (quick 4 / thorough 5) over 5 ops, both modes; "
     "socket loop: every producer step script <= 4 steps (5 kinds quick, 6 thorough) and every exchange response script "
-    "<= %d steps (quick 3 / thorough 4), 0..n inputs followed by EOS or a cancel batch, on_cancel raising or not; "
+    "<= %d steps (quick 3 / thorough 4), 0..n inputs followed by EOS or by a cancel batch plus one further input, on_cancel raising or not; "
     "HTTP cancel branch: all 32 combinations of its five boolean inputs. pyarrow objects are concrete."
 ) % (pick(4, 5), pick(3, 4))
 OUTSIDE = (
@@ -283,6 +283,8 @@ def _mk_input(exchange: bool, t: int, cancel: bool) -> bytes:
             w.write_batch(_IN_BATCHES[i] if exchange else empty_batch(schema))
         if cancel:
             w.write_batch(empty_batch(schema), custom_metadata=_CANCEL_MD)
+            # a pipelined input *after* the cancel: must be drained, never processed
+            w.write_batch(_IN_BATCHES[0] if exchange else empty_batch(schema))
     return b.getvalue()
 
 
@@ -457,7 +459,7 @@ _NX = pick(3, 4)  # exchange: inputs / steps
 
 
 @cond(q=60, t=400, encoded=_SERVE_ENCODED, stubs=[_CLOCK_STUB], replay=_replay_serve_pr, signature=lambda a, c: "C10:serve_stream:producer-script-mismatch",
-      bound="producer step scripts of <= %d steps over {emit, emit+finish, finish, log+emit, raise%s}; 0..%d ticks then EOS or cancel; on_cancel raising or not" % (_NS, "" if _KP == 4 else ", nothing", _NS))
+      bound="producer step scripts of <= %d steps over {emit, emit+finish, finish, log+emit, raise%s}; 0..%d ticks then EOS or cancel+1 more tick; on_cancel raising or not" % (_NS, "" if _KP == 4 else ", nothing", _NS))
 def serve_stream_producer_script(t: int, cancel: bool, cancel_raises: bool, s0: int, s1: int, s2: int, s3: int) -> bool:
     """
     pre: 0 <= t <= _NS
@@ -468,7 +470,7 @@ def serve_stream_producer_script(t: int, cancel: bool, cancel_raises: bool, s0: 
 
 
 @cond(q=60, t=400, encoded=_SERVE_ENCODED, stubs=[_CLOCK_STUB], replay=_replay_serve_ex, signature=lambda a, c: "C10:serve_stream:exchange-script-mismatch",
-      bound="exchange response scripts of <= %d steps over {emit, log+emit, finish, raise, nothing}; 0..%d inputs then EOS or cancel; on_cancel raising or not" % (_NX, _NX))
+      bound="exchange response scripts of <= %d steps over {emit, log+emit, finish, raise, nothing}; 0..%d inputs then EOS or cancel+1 more input; on_cancel raising or not" % (_NX, _NX))
 def serve_stream_exchange_script(t: int, cancel: bool, cancel_raises: bool, s0: int, s1: int, s2: int, s3: int) -> bool:
     """
     pre: 0 <= t <= _NX
@@ -503,8 +505,7 @@ class _HttpState:
 
     def on_cancel(self, ctx) -> None:  # type: ignore[no-untyped-def]
         _H["cancels"] += 1
-        if ctx is None or ctx.method_name != "m":
-            raise HarnessModelError("on_cancel called without a CallContext for the method")
+        _H["ctx_ok"] = type(ctx).__name__ == "CallContext"
         if _H["cancel_raises"]:
             raise RuntimeError("on_cancel boom")
 
@@ -586,30 +587,75 @@ def _http_request(producer: bool, cancel: bool, token: bool) -> bytes:
 _HTTP_REQ = tuple(tuple(tuple(_http_request(p, c, t) for t in (False, True)) for c in (False, True)) for p in (False, True))
 
 
-def _replay_http_cancel(args: dict) -> str | None:
-    """Real HTTP stack (falcon test client + real tokens): start a stream, cancel it, count."""
-    from vgi_rpc.http import http_connect, make_sync_client
+class _RecClient:
+    """Pass-through around the falcon test client that keeps every response."""
 
+    def __init__(self, inner) -> None:  # type: ignore[no-untyped-def]
+        self._inner = inner
+        self.responses: list = []
+        self.prefix = getattr(inner, "prefix", "")
+
+    def post(self, url, **kw):  # type: ignore[no-untyped-def]
+        r = self._inner.post(url, **kw)
+        self.responses.append((url, r))
+        return r
+
+    def __getattr__(self, name: str):  # type: ignore[no-untyped-def]
+        return getattr(self._inner, name)
+
+
+def _replay_http_cancel(args: dict) -> str | None:
+    """Real HTTP stack (falcon WSGI app, real tokens, real client session): start a stream, cancel it, count."""
+    from vgi_rpc.http import http_connect, make_sync_client
+    from vgi_rpc.http._common import RPC_ERROR_HEADER
+
+    producer = bool(args.get("producer"))
     for k in ("calls", "cancels", "after_cancel", "i"):
         _HOLD[k] = 0
-    _HOLD.update(script=(0, 0, 0, 0), cancel_raises=bool(args.get("cancel_raises")), inputs=[])
-    client = make_sync_client(_SERVER, token_key=b"k" * 32)
+    _HOLD.update(script=(0, 0, 0, 2), cancel_raises=bool(args.get("cancel_raises")), inputs=[])
+    # max_response_bytes=1 makes a producer hand out a continuation token after every batch
+    client = _RecClient(make_sync_client(_SERVER, token_key=b"k" * 32, max_response_bytes=1 if producer else None))
     problems = []
     with http_connect(_Proto, client=client) as proxy:
-        s = proxy.exch()  # (an HTTP producer runs to completion inside init; the exchange session is the cancellable one)
-        s.exchange(ty.AnnotatedBatch(batch=_IN_BATCHES[0]))
+        it = None
+        if producer:
+            s = proxy.gen()
+            it = iter(s)
+            next(it)
+        else:
+            s = proxy.exch()
+            s.exchange(ty.AnnotatedBatch(batch=_IN_BATCHES[0]))
         calls_before = _HOLD["calls"]
+        n_before = len(client.responses)
         s.cancel()
         if _HOLD["cancels"] != 1:
             problems.append("on_cancel ran %d times" % _HOLD["cancels"])
         if _HOLD["calls"] != calls_before or _HOLD["after_cancel"]:
             problems.append("process ran on/after cancel")
+        if len(client.responses) != n_before + 1:
+            problems.append("cancel sent %d requests" % (len(client.responses) - n_before))
+        else:
+            r = client.responses[-1][1]
+            hdrs = {k.lower(): v for k, v in dict(r.headers).items()}
+            if r.status_code != 200 or RPC_ERROR_HEADER.lower() in hdrs:
+                problems.append("cancel answered with status %s / error marker %s" % (r.status_code, hdrs.get(RPC_ERROR_HEADER.lower())))
+            else:
+                try:
+                    if ipc.open_stream(BytesIO(r.content)).read_all().num_rows != 0:
+                        problems.append("cancel response carries data")
+                except Exception as e:  # noqa: BLE001
+                    problems.append("cancel response unreadable: %r" % e)
         try:
-            s.exchange(ty.AnnotatedBatch(batch=_IN_BATCHES[1]))
-            problems.append("session usable after cancel")
+            if producer:
+                rest = list(it)
+                if rest:
+                    problems.append("session yielded batches after cancel")
+            else:
+                s.exchange(ty.AnnotatedBatch(batch=_IN_BATCHES[1]))
+                problems.append("session usable after cancel")
         except (RpcError, StopIteration):
             pass
-        if _HOLD["cancels"] != 1 or _HOLD["after_cancel"]:
+        if _HOLD["cancels"] > 1 or _HOLD["after_cancel"]:
             problems.append("state used after cancel")
     return "; ".join(problems) or None
 
@@ -647,7 +693,7 @@ def http_cancel_branch(producer: bool, cancel: bool, token: bool, known: bool, c
         return False
     if cancel:
         # never processed, hook exactly once, no error reported, empty stream with the output schema
-        if _H["turns"] != [] or _H["cancels"] != 1:
+        if _H["turns"] != [] or _H["cancels"] != 1 or not _H.get("ctx_ok"):
             return False
         if len(_H["outcomes"]) != 1:
             return False
